@@ -44,7 +44,9 @@ class Prop(BaseProp):
         elif via == 'combine':
             e = impl.le.combine_expressions([e, e.args[-1] if e.args else e, e], rng_op(case), licensing=lic)
         t0 = impl.tree_c(e)
-        text = str(e)
+        text = e.render()
+        if str(e) != text:
+            return Verdict('diverge', case, 'str() differs from render()', impl=[str(e), text])
         tags = ['via=' + via]
         ip = impl.parse_c(lic, text)
         if ip != [T('ok'), t0]:
